@@ -4,7 +4,13 @@ import json
 T = "explicit-state model checking of the implementation (exhaustive bounded search over copy-on-write branches of the real app state, oracle in every state/transition)"
 G = "exhaustive input-grid enumeration through the real keeper functions + explicit-state search for the in-situ composition"
 NOTE = "CometBFT replaced by the harness block driver; messages via MsgServiceRouter (no ante handlers); small validator sets and value alphabets; depth bound as reported in the evidence"
+XNOTE = "Net shim in place of IBC core proof verification / ordered-channel bookkeeping (real ibc-go keepers for SendPacket, clients, channels); consumer chains booted through the consumer app's own InitChainer from the provider's recorded genesis; CometBFT replaced by the harness block driver; messages via MsgServiceRouter; bounds as reported in the evidence"
+XPROPS = {"C01", "C08", "C09", "C11", "C12", "C16", "C17"}
 checks = {
+ "C01": ("model_checking", T, "provider staking / opt-in / key / power-shaping histories x epochs x late channel opening x delayed and batched relay x consumer blocks on the real provider and consumer apps (five units incl. a second Top-N consumer and a small-alphabet unit that reaches several packets in one consumer block); a ledger monitor remembers every set the provider decided; after every consumer block the stored set and the consensus-engine set must equal the set of the last packet received (launch-time set if none), packets must reproduce the provider's stored set and leave in order", "§5 C01"),
+ "C08": ("model_checking", T, "reports of downtime / double-signing from two consumers for current, replaced, never-assigned and unknown keys, forged update ids, validator state changes (jail, opt-out, unbonding, stop), acks and VSC deliveries in five units (full, ack loop, throttle, retry, epoch 3); the provider's decision is recomputed from the pre-state as a decision table (who is jailed, amount, jail time, ack bytes, slash acks recorded / carried / cleared, nobody else touched) and the consumer's one-outstanding-report rule is judged on every step", "§5 C08"),
+ "C09": ("model_checking", T, "same search as C08: per delivery the meter rule (handled only with meter >= 0, deduction = effective power, bounce changes nothing), per begin-block the allowance / cap / one-replenishment-per-period rules, per trace the window bound, and on the consumer the send discipline (nothing while in flight or bounced-and-not-yet-due, retry only after the delay, head of queue only, handled packet leaves the queue exactly once)", "§5 C09"),
+ "C12": ("model_checking", T, "monitors on the C01 search (id grows by exactly one per epoch block, every id used maps to height+1 of the block that produced it, packet ids leave in increasing order, every consumer height maps to the id of the last update received before it) and on the C08 search (a report carries the id of its infraction height; ids never issued are error-acknowledged and change nothing)", "§5 C12"),
  "C02": ("model_checking", T, "26 consumer power-shaping configurations live side by side on one provider (two families x 6 (M, MaxValidators) settings + an epoch-3 unit); every staking / opt-in / key / jail history up to the bound; after every epoch and at every launch each consumer set is compared with a must/may recomputation from the staking store", "§5 C02"),
  "C03": ("model_checking", T, "ComputeMinPowerInTopN over every power multiset x N in 50..100 against a brute-force exact-integer reference, plus the eligibility search: stored threshold, automatic opt-in, opt-out acceptance and provenance of every opt-in record after every event", "§5 C03"),
  "C04": ("exploration", G, "every (power multiset, percentage 1..100, cap 0..n+1, priority subset) point of the grid is evaluated with closed-form post-conditions; the composition inside ComputeNextValidators is judged in situ on capped consumers of the eligibility search", "§5 C04"),
@@ -44,7 +50,7 @@ for pid in sorted(checks):
       "property_id": pid, "quick_cmd": f"./check {pid} quick", "thorough_cmd": f"./check {pid} thorough",
       "evidence_file": f"/verif/evidence/{pid}.json", "replay_cmd_template": "./check --replay {path}", "engine": "mc",
       "level_claimed": {"category": lvl, "text": text, "design_ref": "DESIGN.md " + ref},
-      "level_note": NOTE, "technique": tech})
+      "level_note": XNOTE if pid in XPROPS else NOTE, "technique": tech})
 for pid in ids:
     if pid not in checks:
         m["not_applicable"].append({"property_id": pid, "reason": pending.get(pid, "check not built yet (work in progress); the technique applies, see DESIGN.md §5")})
